@@ -41,6 +41,12 @@
 (*  X3 prune the root, refused although no Merkle cell is reached                       *)
 (*                                  rejected create-proof-error, class merkle           *)
 (*  X4 prune g1, refused (M is reached)                                  accepted     *)
+(*  D7 key A (present) refused                             rejected present-key-error *)
+(* YS = root[leaf, Mb[r1[Ma[P3]]]]: P3 a pruned branch of MASK 3 (two stored levels,   *)
+(* depths 2 and 1) beneath two Merkle-proof cells.                                     *)
+(*  X5 nothing pruned: refused (a Merkle cell is reached); root pruned: proof  accepted *)
+(*  X6 root pruned, the Merkle-proof cell carries depth + 7                            *)
+(*                                  rejected stored-depth, class merkle                 *)
 (* DT3 = {KA, KB, KC}; the source is the tree under the proof that keeps KA and KB.  *)
 (*  Q1 key A (prunes above the old pruned branch), key B (re-prunes it), key C       *)
 (*     (path pruned: anything but a panic), absent key refused         accepted     *)
@@ -118,6 +124,15 @@ XSS1 == << XReset >> \o ToG1(1) \o << Cr(1, XG1), Cur(2), RefH(2, 0, 1, 0), PrH(
 XSS2 == << XReset >> \o ToG1(1) \o << Cr(1, XG1L1) >>
 XSS3 == << XReset, Cur(1), PrH(1, 0), CrErr(1) >>
 XSS4 == << XReset >> \o ToG1(1) \o << CrErr(1) >>
+DS7 == << DReset, Refused(KA) >>
+YDeep == << C(<<0,1>>, <<2>>), C(<<1>>, <<3>>), C(<<0,0>>, <<>>) >>                                  \* x[u[u1]]
+Y1 == << C(<<1,0,1>>, <<2>>) >> \o Shift(Proof(YDeep, 1, {<<1>>}), 1)                               \* r1[Ma[x[pruned (u)]]]
+YS == << C(<<1,1>>, <<2, 3>>), C(<<0>>, <<>>) >> \o Shift(Proof(Y1, 1, {<<1, 1>>}), 2)               \* root[leaf, Mb[r1[Ma[P3]]]]
+IYS == InfoTable(YS)
+YReset == [k |-> "Reset", kind |-> "walk", src |-> "canary", mode |-> "boc", n |-> 0, cells |-> TableJsonM(YS), roots |-> <<0>>]
+YR == Proof(YS, 1, {<<>>})
+XSS5 == << YReset, Cur(1), CrErr(1), Cur(2), PrH(2, 0), Cr(2, YR) >>
+XSS6 == << YReset, Cur(1), PrH(1, 0), Cr(1, [YR EXCEPT ![1].b = BytesToBits(<<3>> \o IYS[1].h[1] \o U16(IYS[1].d[1] + 7))]) >>
 KC == <<1,1,0,0,0,0,0,0>>   VC == [i \in 1..32 |-> IF i % 3 = 0 THEN 1 ELSE 0]
 DT3 == EncEdge(<< [k |-> KA, v |-> [b |-> VA, r |-> <<>>]], [k |-> KB, v |-> [b |-> VB, r |-> <<>>]], [k |-> KC, v |-> [b |-> VC, r |-> <<>>]] >>, 0, 8, <<"short">>, <<>>)
 KeepAB == KeepKeysPruneSet(DT3, 1, 8, {KA, KB})
@@ -128,9 +143,9 @@ QReset == [k |-> "Reset", kind |-> "dict", src |-> "canary", mode |-> "proof", n
 QKA == Proof(S3, 1, {<<2>>})    QKB == Proof(S3, 1, {<<1>>, <<2, 2>>})
 QS1 == << QReset, Key(KA, VA, QKA), Key(KB, VB, QKB), Refused(KC), Refused(KX) >>
 QS2 == << QReset, Key(KA, VA, [QKA EXCEPT ![1].b = BytesToBits(<<3>> \o IS3[1].h[4] \o U16(IS3[1].d[4]))]) >>
-All == WS1 \o WS2 \o WS3 \o WS4 \o WS5 \o WS6 \o DS1 \o DS2 \o DS3 \o DS4 \o DS5 \o DS6 \o PSS1 \o PSS2 \o PSS3 \o PSS4 \o QS1 \o QS2 \o HS1 \o HS2 \o KS1 \o XSS1 \o XSS2 \o XSS3 \o XSS4
+All == WS1 \o WS2 \o WS3 \o WS4 \o WS5 \o WS6 \o DS1 \o DS2 \o DS3 \o DS4 \o DS5 \o DS6 \o PSS1 \o PSS2 \o PSS3 \o PSS4 \o QS1 \o QS2 \o HS1 \o HS2 \o KS1 \o XSS1 \o XSS2 \o XSS3 \o XSS4 \o DS7 \o XSS5 \o XSS6
 Init == out = "todo"
-Next == out = "todo" /\ out' = "done" /\ PrintT(<<"VEC", ToJson([events |-> All, lens |-> <<Len(WS1), Len(WS2), Len(WS3), Len(WS4), Len(WS5), Len(WS6), Len(DS1), Len(DS2), Len(DS3), Len(DS4), Len(DS5), Len(DS6), Len(PSS1), Len(PSS2), Len(PSS3), Len(PSS4), Len(QS1), Len(QS2), Len(HS1), Len(HS2), Len(KS1), Len(XSS1), Len(XSS2), Len(XSS3), Len(XSS4)>>,
+Next == out = "todo" /\ out' = "done" /\ PrintT(<<"VEC", ToJson([events |-> All, lens |-> <<Len(WS1), Len(WS2), Len(WS3), Len(WS4), Len(WS5), Len(WS6), Len(DS1), Len(DS2), Len(DS3), Len(DS4), Len(DS5), Len(DS6), Len(PSS1), Len(PSS2), Len(PSS3), Len(PSS4), Len(QS1), Len(QS2), Len(HS1), Len(HS2), Len(KS1), Len(XSS1), Len(XSS2), Len(XSS3), Len(XSS4), Len(DS7), Len(XSS5), Len(XSS6)>>,
                                                                 selfcheck |-> (WellFormed(PL) /\ WellFormed(P0) /\ WellFormed(PAB) /\ DecEdge(DT, 1, 8, <<>>).ok
                                                                                /\ SourceOK(S2) /\ Partial(S2) /\ S2[1].m = 1 /\ IS2[1].h[4] # IS2[1].h[1] /\ IS2[2].d[1] = 1
                                                                                /\ WellFormed(QB) /\ WellFormed(QA) /\ WellFormed(QR) /\ QA = Proof(S2, 1, {})
@@ -139,6 +154,9 @@ Next == out = "todo" /\ out' = "done" /\ PrintT(<<"VEC", ToJson([events |-> All,
                                                                                \* pruned branch in its place the level-0 hash is another one (the Merkle-proof root no longer matches)
                                                                                /\ ExoticSourceOK(XS, 1) /\ WellFormed(XG1) /\ XG1[6].m = 2 /\ InfoTable(XG1)[2].h[1] = IXS[1].h[1]
                                                                                /\ ~WellFormed(XG1L1) /\ MasksOK(XG1L1)
-                                                                               /\ InfoTable(XG1L1)[2].h[1] # IXS[1].h[1])])>>)
+                                                                               /\ InfoTable(XG1L1)[2].h[1] # IXS[1].h[1]
+                                                                               \* the pruned branch of YS stores two levels with different depths
+                                                                               /\ ExoticSourceOK(YS, 1) /\ YS[Len(YS)].x = Pruned /\ YS[Len(YS)].m = 3
+                                                                               /\ SubSeq(DataBytes(YS[Len(YS)].b), 67, 70) = <<0, 2, 0, 1>> /\ WellFormed(YR))])>>)
 Spec == Init /\ [][Next]_out
 =============================================================================
